@@ -45,7 +45,7 @@ class World_:
     pass
 
 
-def make_world(eng, lang, nvars=2, with_nested=True, projected=False, bounded=False, plain=False, functional=False):
+def make_world(eng, lang, nvars=2, with_nested=True, projected=False, bounded=False, plain=False, functional=False, numeric=False):
     w = World_()
     if plain:
         # units that never look at the scope: one fixed world instead of the symbolic one
@@ -100,6 +100,13 @@ def make_world(eng, lang, nvars=2, with_nested=True, projected=False, bounded=Fa
         w.pool = [Kk.get_type().new([tp.WildCardType(B.get_type(), tp.Contravariant)]),
                   Kk.get_type().new([tp.WildCardType(B.get_type(), tp.Covariant)]), Kk.get_type().new([B.get_type()])]
         w.pool_names = ['Kk<in Bb>', 'Kk<out Bb>', 'Kk<Bb>']
+    if numeric and lang in ('java', 'groovy'):
+        # primitive and boxed numeric types side by side (java: a primitive short is not assignable to a boxed Integer / Long)
+        from src.ir import java_types as jt
+        mod = jt if lang == 'java' else __import__('src.ir.groovy_types', fromlist=['x'])
+        w.pool = [mod.ShortType(primitive=True), mod.IntegerType(primitive=True), mod.IntegerType(primitive=False),
+                  mod.LongType(primitive=False), mod.ShortType(primitive=False)]
+        w.pool_names = ['short', 'int', 'Integer', 'Long', 'Short']
     # callable declarations: top-level functions, a method of Aa, a generic function
     ma = ast.FunctionDeclaration('ma', [ast.ParameterDeclaration('k', INT)], INT, ast.BottomConstant(INT),
                                  ast.FunctionDeclaration.CLASS_METHOD)
@@ -205,6 +212,17 @@ def assignable(w, s, t):
     """declarative assignability of a value of type s to a slot of type t (within the world's pool:
     classes, Int, String, Gg<..>)"""
     a, b = w.ref.snap(s), w.ref.snap(t)
+    order = ['ByteType', 'ShortType', 'IntegerType', 'LongType', 'FloatType', 'DoubleType']
+    if a[0] == 'B' and b[0] == 'B' and a[1] in order and b[1] in order and w.lang in ('java', 'groovy') \
+            and hasattr(s, 'primitive') and hasattr(t, 'primitive'):
+        # JLS 5.2: primitive -> primitive widening; primitive -> box only its own; box -> box identity; box -> primitive
+        # unboxing then widening
+        i, j = order.index(a[1]), order.index(b[1])
+        if bool(s.primitive) != bool(t.primitive) and not s.primitive:
+            return i <= j
+        if s.primitive and t.primitive:
+            return i <= j
+        return i == j
     if a[0] == 'B' and b[0] == 'B' and a[1] == b[1]:
         return True
     return w.ref.sub(a, b)
@@ -238,7 +256,8 @@ def run_unit(eng, lang, unit, **kw):
     sym_draws = kw.pop('sym_draws', None)
     cfgkw = dict(limits__max_depth=max_depth, limits__max_var_decls=3)
     w = make_world(eng, lang, nvars=kw.pop('nvars', 2), with_nested=kw.pop('with_nested', True),
-                   projected=kw.pop('projected', False), bounded=kw.pop('bounded', False), plain=kw.pop('plain', False), functional=kw.pop('functional', False))
+                   projected=kw.pop('projected', False), bounded=kw.pop('bounded', False), plain=kw.pop('plain', False), functional=kw.pop('functional', False),
+                   numeric=kw.pop('numeric', False))
     depth0 = int(eng.fresh_int(1, 2 * max_depth + 2, 'depth')) if sym_depth else 1
     w.g.depth = depth0
     etype_i = int(eng.fresh_int(0, len(w.pool) - 1, 'etype'))
